@@ -35,22 +35,23 @@ Fixpoint b64_decode_fuel (fuel : nat) (cs : list Z) : option (list Z) :=
   | S fuel' =>
     match cs with
     | [] => Some []
-    | [c1; c2; 61; 61] =>
-        match b64_val c1, b64_val c2 with
-        | Some v1, Some v2 => Some [v1 * 4 + v2 / 16]
-        | _, _ => None
-        end
-    | [c1; c2; c3; 61] =>
-        match b64_val c1, b64_val c2, b64_val c3 with
-        | Some v1, Some v2, Some v3 => Some [v1 * 4 + v2 / 16; (v2 mod 16) * 16 + v3 / 4]
-        | _, _, _ => None
-        end
     | c1 :: c2 :: c3 :: c4 :: rest =>
-        match b64_val c1, b64_val c2, b64_val c3, b64_val c4, b64_decode_fuel fuel' rest with
-        | Some v1, Some v2, Some v3, Some v4, Some out =>
-            Some (v1 * 4 + v2 / 16 :: (v2 mod 16) * 16 + v3 / 4 :: (v3 mod 4) * 64 + v4 :: out)
-        | _, _, _, _, _ => None
-        end
+        if (c3 =? 61) && (c4 =? 61) then
+          match rest, b64_val c1, b64_val c2 with
+          | [], Some v1, Some v2 => Some [v1 * 4 + v2 / 16]
+          | _, _, _ => None
+          end
+        else if c4 =? 61 then
+          match rest, b64_val c1, b64_val c2, b64_val c3 with
+          | [], Some v1, Some v2, Some v3 => Some [v1 * 4 + v2 / 16; (v2 mod 16) * 16 + v3 / 4]
+          | _, _, _, _ => None
+          end
+        else
+          match b64_val c1, b64_val c2, b64_val c3, b64_val c4, b64_decode_fuel fuel' rest with
+          | Some v1, Some v2, Some v3, Some v4, Some out =>
+              Some (v1 * 4 + v2 / 16 :: (v2 mod 16) * 16 + v3 / 4 :: (v3 mod 4) * 64 + v4 :: out)
+          | _, _, _, _, _ => None
+          end
     | _ => None
     end
   end.
@@ -293,6 +294,7 @@ Section Leaves.
   | JList (l : list json)
   | JObj (l : list (list Z * json))                (* plain JSON object, string keys *)
   | JTyped (g : tag) (v : json)                    (* {"@type": g, "@value": v} *)
+  | JPairs (l : list (json * json))                (* g:Map payload [k1, v1, k2, v2, ...] *)
   | JTuple (l : list json)                         (* dse:Tuple payload {"cqlType","definition","value": l}: value part *)
   | JDseDur (mo d ns : json).                      (* {"months":..,"days":..,"nanos":..} *)
 
@@ -311,14 +313,15 @@ Section Leaves.
     let '(c, exact) := class_of v in
     get_serializer ver c exact (match v with GInt z => Some z | _ => None end).
 
-  Fixpoint gs_mapM {A B : Type} (f : A -> option B) (l : list A) : option (list B) :=
+  Definition gs_mapM {A B : Type} (f : A -> option B) : list A -> option (list B) :=
+    fix go (l : list A) : option (list B) :=
     match l with
     | [] => Some []
-    | x :: l' => match f x, gs_mapM f l' with Some y, Some ys => Some (y :: ys) | _, _ => None end
+    | x :: l' => match f x, go l' with Some y, Some ys => Some (y :: ys) | _, _ => None end
     end.
 
-  (* <TypeIO>.serialize(value, writer); rec = writer.serialize for nested values.  None = Python raises. *)
-  Definition tio_serialize (rec : gval -> option json) (t : tio) (v : gval) : option json :=
+  (* <TypeIO>.serialize(value, writer) of the non-container classes.  None = Python raises. *)
+  Definition tio_serialize (t : tio) (v : gval) : option json :=
     match t, v with
     | TText, GStr s => Some (JStr s)
     | TBoolean, GBool b => Some (JBool b)
@@ -333,17 +336,6 @@ Section Leaves.
     | TPolygon, GGeom g | TPoint, GGeom g | TLineString, GGeom g => Some (JStr (wkt_str g))
     | TFloat, GFloat m e | TDouble, GFloat m e => Some (JFloat m e)
     | TInt16, GInt z | TInt32, GInt z | TInt64, GInt z | TBigInteger, GInt z => Some (JInt z)
-    | TJsonMap, GDict l =>
-        option_map JObj (gs_mapM (fun kv => match fst kv, rec (snd kv) with
-                                         | GStr k, Some j => Some (k, j)
-                                         | _, _ => None end) l)
-    | TMap, GDict l =>
-        option_map (fun ll => JList (concat ll))
-                   (gs_mapM (fun kv => match rec (fst kv), rec (snd kv) with
-                                    | Some a, Some b => Some [a; b] | _, _ => None end) l)
-    | TListIO, GList l => option_map JList (gs_mapM rec l)
-    | TSetIO, GSet l => option_map JList (gs_mapM rec l)
-    | TTupleIO, GTuple l => option_map JTuple (gs_mapM rec l)
     | TDseDuration, GDuration mo d ns => Some (JDseDur (JInt mo) (JInt d) (JInt ns))
     | _, _ => None
     end.
@@ -352,42 +344,33 @@ Section Leaves.
   Definition envelope (t : tio) (j : json) : json :=
     match tag_of t with Some g => JTyped g j | None => j end.
 
-  (* structural recursion through the containers; fuel-free: the recursive call is on sub-values *)
+  (* containers by structural recursion (writer.serialize on the members) *)
   Fixpoint serialize23 (ver : version) (v : gval) {struct v} : option json :=
     match serializer_of ver v with
     | None => None                                 (* ValueError("Unable to find a serializer ...") *)
     | Some t =>
-        let body :=
+        option_map (envelope t)
           match t, v with
-          | TJsonMap, GDict l =>
-              option_map JObj ((fix go (l : list (gval * gval)) : option (list (list Z * json)) :=
-                 match l with
-                 | [] => Some []
-                 | (GStr k, x) :: l' => match serialize23 ver x, go l' with Some j, Some js => Some ((k, j) :: js) | _, _ => None end
-                 | _ :: _ => None
-                 end) l)
+          | TJsonMap, GDict l =>                   (* {k: writer.serialize(v)}: JSON object, string keys *)
+              option_map JObj (gs_mapM (fun kv => match kv with
+                                                  | (GStr k, x) => option_map (pair k) (serialize23 ver x)
+                                                  | _ => None end) l)
           | TMap, GDict l =>
-              option_map JList ((fix go (l : list (gval * gval)) : option (list json) :=
-                 match l with
-                 | [] => Some []
-                 | (k, x) :: l' => match serialize23 ver k, serialize23 ver x, go l' with
-                                   | Some a, Some b, Some js => Some (a :: b :: js) | _, _, _ => None end
-                 end) l)
-          | TListIO, GList l => option_map JList ((fix go (l : list gval) : option (list json) :=
-                 match l with [] => Some [] | x :: l' => match serialize23 ver x, go l' with Some j, Some js => Some (j :: js) | _, _ => None end end) l)
-          | TSetIO, GSet l => option_map JList ((fix go (l : list gval) : option (list json) :=
-                 match l with [] => Some [] | x :: l' => match serialize23 ver x, go l' with Some j, Some js => Some (j :: js) | _, _ => None end end) l)
-          | TTupleIO, GTuple l => option_map JTuple ((fix go (l : list gval) : option (list json) :=
-                 match l with [] => Some [] | x :: l' => match serialize23 ver x, go l' with Some j, Some js => Some (j :: js) | _, _ => None end end) l)
-          | _, _ => tio_serialize (fun _ => None) t v
-          end in
-        option_map (envelope t) body
+              option_map JPairs (gs_mapM (fun kv => match kv with
+                                                    | (k, x) => match serialize23 ver k, serialize23 ver x with
+                                                                | Some a, Some b => Some (a, b) | _, _ => None end
+                                                    end) l)
+          | TListIO, GList l => option_map JList (gs_mapM (serialize23 ver) l)
+          | TSetIO, GSet l => option_map JList (gs_mapM (serialize23 ver) l)
+          | TTupleIO, GTuple l => option_map JTuple (gs_mapM (serialize23 ver) l)
+          | _, _ => tio_serialize t v
+          end
     end.
 
   (* GraphSON1Serializer.serialize (classmethod): no envelope; a value without serializer is returned as it is *)
   Definition serialize1 (v : gval) : option json :=
     match serializer_of V1 v with
-    | Some t => tio_serialize (fun _ => None) t v       (* scalars; nested GraphSON1 maps carry no types: not modelled *)
+    | Some t => tio_serialize t v       (* scalars; nested GraphSON1 maps carry no types: not modelled *)
     | None => match v with GInt z => Some (JInt z) | _ => None end
     end.
 
@@ -453,21 +436,32 @@ Section Leaves.
     | _, _ => None
     end.
 
-  Fixpoint pair_up (l : list gval) : list (gval * gval) :=
-    match l with a :: b :: l' => (a, b) :: pair_up l' | _ => [] end.
+  Definition is_type_key (k : list Z) : bool :=       (* "@type" *)
+    match k with [64; 116; 121; 112; 101] => true | _ => false end.
 
   (* GraphSON2Reader.deserialize / GraphSON3Reader.deserialize *)
   Fixpoint deserialize23 (ver : version) (j : json) {struct j} : option gval :=
-    let list_of := fix go (l : list json) : option (list gval) :=
-      match l with [] => Some [] | x :: l' => match deserialize23 ver x, go l' with Some y, Some ys => Some (y :: ys) | _, _ => None end end in
     match j with
     | JTyped g body =>
         match deserializer_for ver g with
         | None => None                               (* unknown tag: falls to the plain-dict branch; not modelled *)
-        | Some TListIO => match body with JList l => option_map GList (list_of l) | _ => None end
-        | Some TSetIO => match body with JList l => match list_of l with Some xs => set_build xs | None => None end | _ => None end
-        | Some TMap => match body with JList l => match list_of l with Some xs => dict_build (pair_up xs) | None => None end | _ => None end
-        | Some TTupleIO => match body with JTuple l => option_map GTuple (list_of l) | _ => None end
+        | Some TListIO => match body with JList l => option_map GList (gs_mapM (deserialize23 ver) l) | _ => None end
+        | Some TSetIO => match body with
+                         | JList l => match gs_mapM (deserialize23 ver) l with Some xs => set_build xs | None => None end
+                         | _ => None end
+        | Some TMap =>
+            match body with
+            | JPairs l =>
+                match gs_mapM (fun kv => match kv with
+                                         | (a, b) => match deserialize23 ver a, deserialize23 ver b with
+                                                     | Some x, Some y => Some (x, y) | _, _ => None end
+                                         end) l with
+                | Some xs => dict_build xs
+                | None => None
+                end
+            | _ => None
+            end
+        | Some TTupleIO => match body with JTuple l => option_map GTuple (gs_mapM (deserialize23 ver) l) | _ => None end
         | Some TDseDuration =>
             match body with
             | JDseDur a b c =>
@@ -481,15 +475,13 @@ Section Leaves.
         end
     | JObj l =>
         (* {self.deserialize(k): self.deserialize(v)}; a user key "@type" would be taken for an envelope: not modelled *)
-        if existsb (fun kv => match fst kv with [64; 116; 121; 112; 101] => true | _ => false end) l then None
-        else match
-               ((fix go (l : list (list Z * json)) : option (list (gval * gval)) :=
-                   match l with
-                   | [] => Some []
-                   | (k, x) :: l' => match deserialize23 ver x, go l' with Some y, Some ys => Some ((GStr k, y) :: ys) | _, _ => None end
-                   end) l) with Some xs => dict_build xs | None => None end
-    | JList l => option_map GList (list_of l)
-    | JTuple _ | JDseDur _ _ _ | JNull | JDur _ => None
+        if existsb (fun kv => is_type_key (fst kv)) l then None
+        else match gs_mapM (fun kv => match kv with (k, x) => option_map (pair (GStr k)) (deserialize23 ver x) end) l with
+             | Some xs => dict_build xs
+             | None => None
+             end
+    | JList l => option_map GList (gs_mapM (deserialize23 ver) l)
+    | JPairs _ | JTuple _ | JDseDur _ _ _ | JNull | JDur _ => None
     | _ => raw_of_json j
     end.
 
